@@ -470,7 +470,7 @@ func runC20(r *Run) {
 		}
 	}
 	nrand := r.N(2000, 200000)
-	ncoq := r.N(2000, 6000) // random durations that are also evaluated by the model; the rest is oracle-only
+	ncoq := r.N(2000, 10000) // random durations that are also evaluated by the model; the rest is oracle-only
 	var outputs []string
 	for i := 0; i < nrand; i++ {
 		d, class := c20RandomDuration(r.R)
@@ -494,7 +494,7 @@ func runC20(r *Run) {
 		c20Parse(r, s, "formatter-output", true)
 	}
 	nvalid, nmal := r.N(1500, 150000), r.N(700, 60000)
-	cvalid, cmal := r.N(1500, 4000), r.N(700, 2000)
+	cvalid, cmal := r.N(1500, 8000), r.N(700, 4000)
 	for i := 0; i < nvalid; i++ {
 		c20Parse(r, c20ValidString(r.R), "mostly-valid", i < cvalid)
 	}
